@@ -167,17 +167,21 @@ pub fn run_diff(case: &DiffCase, st: &mut Stats) -> CaseResult {
                 ensure!(ta == tl, "C16/harness", "oracle tables diverged");
                 let ga = bdd_tt(pa);
                 let gl = bdd_tt(pl);
+                // whether the functions are the right ones is C01's concern (a defect shared by both builders is
+                // not a cache defect); recorded only. A cache that changes a result shows up as a difference below.
+                if gl != tl || ga != ta {
+                    st.bump("result_differs_from_oracle_function(C01's concern)");
+                }
                 ensure!(
-                    gl == tl,
-                    format!("C16/lossy-cache-builder-wrong-function:{}", x.kind),
-                    "op #{} {:?}: with the lossy cache ({:?}) the result denotes {:?}, expected {:?}",
+                    ga == gl,
+                    format!("C16/lossy-cache-builder-denotes-another-function-than-cache-everything-builder:{}", x.kind),
+                    "op #{} {:?}: with the lossy cache ({:?}) the result denotes {:?}, with the cache-everything table {:?}",
                     i,
                     op,
                     case.lru_exp,
                     gl,
-                    tl
+                    ga
                 );
-                ensure!(ga == ta, format!("C16/all-cache-builder-wrong-function:{}", x.kind), "op #{} {:?}: {:?} vs {:?}", i, op, ga, ta);
                 ensure!(
                     bdd_iso(pa, pl),
                     "C16/lossy-cache-builder-differs-from-cache-everything-builder",
@@ -217,7 +221,7 @@ pub fn run_diff(case: &DiffCase, st: &mut Stats) -> CaseResult {
 impl SubCheckT for BddDiff {
     type Case = DiffCase;
     const NAME: &'static str = "bdd_differential";
-    const RULE: &'static str = "the same <=50-op BDD history on RobddBuilder<AllIteTable> and RobddBuilder<LruIteTable> with 1..16 slots (hook) or the default size, same random order: every pair of results is structurally isomorphic (simultaneous walk), both denote the oracle function, and the pointer-equality relation among all results is the same in both builders. Non-trivial: at least one overwrite happened in the lossy ITE cache (hook counter)";
+    const RULE: &'static str = "the same <=50-op BDD history on RobddBuilder<AllIteTable> and RobddBuilder<LruIteTable> with 1..16 slots (hook) or the default size, same random order: every pair of results denotes the same function and is structurally isomorphic (simultaneous walk), and the pointer-equality relation among all results is the same in both builders. Non-trivial: at least one overwrite happened in the lossy ITE cache (hook counter)";
     fn cases(tier: Tier) -> u32 {
         tier.pick(6000, 80_000)
     }
@@ -271,7 +275,9 @@ pub fn run_sdd_caches(case: &SddCacheCase, st: &mut Stats) -> CaseResult {
         if let Some(out) = run.step(op) {
             steps.push((out.idx, out.args.clone(), op.clone()));
             let (p, t) = run.pool[out.idx];
-            ensure!(sdd_tt(p) == t, format!("C16/sdd-wrong-function:{}", out.kind), "op #{} {:?}: {:?} vs {:?}", i, op, sdd_tt(p), t);
+            if sdd_tt(p) != t {
+                st.bump("result_differs_from_oracle_function(C03's concern)");
+            }
         }
         if i >= gap {
             // re-issue the op from `gap` steps ago against the same pool prefix
@@ -381,10 +387,129 @@ impl SubCheckT for SddCaches {
     }
 }
 
+// ---------------------------------------------------------------------------
+// 4. the hash-identified SDD builder's apply cache (keyed by the product of semantic hashes)
+// ---------------------------------------------------------------------------
+
+pub struct SemanticSddCache;
+
+pub fn run_semantic_cache(case: &SddCacheCase, st: &mut Stats) -> CaseResult {
+    use rsdd::builder::sdd::SemanticSddBuilder;
+    use rsdd::builder::BottomUpBuilder;
+    use rsdd::constants::primes;
+    type B<'a> = SemanticSddBuilder<'a, { primes::U64_LARGEST }>;
+    let shape = case.vt.shape();
+    let b: B = SemanticSddBuilder::new(case.vt.to_vtree());
+    let mut run = SddRun::new(&b, shape.leaves());
+    let base = run.pool.len();
+    let gap = 1 + (case.gap % 4) as usize;
+    let mut steps: Vec<(usize, Vec<usize>, SOp)> = Vec::new();
+    let mut repeats = 0u64;
+    for (i, op) in case.ops.iter().enumerate() {
+        if let Some(out) = run.step(op) {
+            steps.push((out.idx, out.args.clone(), op.clone()));
+        }
+        if i >= gap {
+            let (idx, _, old) = match steps.iter().rev().find(|(idx, _, _)| *idx + gap < run.pool.len()) {
+                Some(s) => s.clone(),
+                None => continue,
+            };
+            let mut prefix = SddRun { b: &b, pool: run.pool[..idx].to_vec(), labels: run.labels.clone() };
+            if let Some(again) = prefix.step(&old) {
+                let p2 = prefix.pool[again.idx].0;
+                let p1 = run.pool[idx].0;
+                repeats += 1;
+                // identity in this builder is equality of semantic hashes: the cached answer must be the same
+                // function as the first one, and be judged equal to it
+                ensure!(
+                    sdd_tt(p1) == sdd_tt(p2) && b.eq(p1, p2),
+                    "C16/semantic-sdd-repeated-operation-returned-another-result",
+                    "re-issuing {:?} (first computed as pool entry {}) returned a diagram denoting {:?}, originally {:?} (eq = {})",
+                    old,
+                    idx,
+                    sdd_tt(p2),
+                    sdd_tt(p1),
+                    b.eq(p1, p2)
+                );
+            }
+        }
+    }
+    // cold: sampled results recomputed in a fresh builder from their dependency cone only
+    let mut colds = 0u64;
+    for sel in case.cold.iter().take(4) {
+        if steps.is_empty() {
+            break;
+        }
+        let (target, _, _) = steps[pick(*sel, steps.len())].clone();
+        let mut cone: BTreeSet<usize> = BTreeSet::new();
+        let mut stack = vec![target];
+        while let Some(x) = stack.pop() {
+            if x < base || !cone.insert(x) {
+                continue;
+            }
+            if let Some((_, args, _)) = steps.iter().find(|(idx, _, _)| *idx == x) {
+                stack.extend(args.iter().copied());
+            }
+        }
+        let fb: B = SemanticSddBuilder::new(case.vt.to_vtree());
+        let mut fr = SddRun::new(&fb, shape.leaves());
+        for (idx, _, op) in steps.iter() {
+            if *idx > target {
+                break;
+            }
+            if cone.contains(idx) {
+                let _ = fr.step(op);
+            } else {
+                fr.pool.push((SddPtr::PtrTrue, Tt::TRUE));
+            }
+        }
+        let cold = fr.pool[target].0;
+        let warm = run.pool[target].0;
+        colds += 1;
+        ensure!(
+            sdd_tt(cold) == sdd_tt(warm),
+            "C16/semantic-sdd-cold-recomputation-differs",
+            "pool entry {} recomputed in a fresh hash-identified builder from its dependency cone {:?} denotes {:?}, the long-lived builder's result {:?}",
+            target,
+            cone,
+            sdd_tt(cold),
+            sdd_tt(warm)
+        );
+    }
+    st.add("semantic_sdd.repeats", repeats);
+    st.add("semantic_sdd.cold_recomputations", colds);
+    if repeats >= 3 && colds >= 1 {
+        st.mark_nontrivial();
+    }
+    Ok(())
+}
+
+impl SubCheckT for SemanticSddCache {
+    type Case = SddCacheCase;
+    const NAME: &'static str = "semantic_sdd_cache";
+    const RULE: &'static str = "SemanticSddBuilder over GF(2^64-25), random vtree (<=5 variables), <=30 ops from {literal, constant, not, and, or, condition, exists}: each op is re-issued 1..4 steps later (answered by the apply cache keyed by the product of semantic hashes) and must return a diagram of the same function that the builder judges equal to the first answer; up to 4 sampled results are recomputed cold in a fresh builder from their dependency cone and must denote the same function. Non-trivial: >=3 repetitions and >=1 cold recomputation";
+    fn cases(tier: Tier) -> u32 {
+        tier.pick(3000, 50_000)
+    }
+    fn strategy(_tier: Tier) -> BoxedStrategy<SddCacheCase> {
+        (
+            vtree_case_strategy(5, false),
+            proptest::collection::vec(sop_strategy(false, false), 0..=30),
+            any::<u8>(),
+            proptest::collection::vec(any::<u16>(), 4),
+        )
+            .prop_map(|(vt, ops, gap, cold)| SddCacheCase { vt, ops, gap, cold, table_cap: None })
+            .boxed()
+    }
+    fn run(case: &SddCacheCase, st: &mut Stats) -> CaseResult {
+        run_semantic_cache(case, st)
+    }
+}
+
 pub fn property() -> Property {
     Property {
         id: "C16",
-        subs: vec![sub::<LruDirect>(), sub::<BddDiff>(), sub::<SddCaches>()],
+        subs: vec![sub::<LruDirect>(), sub::<BddDiff>(), sub::<SddCaches>(), sub::<SemanticSddCache>()],
         fuzz: vec![FuzzSpec { target: "tables", runs: 150000, max_len: 500 }],
         assumptions: vec![
             "per-key hashes are functions of the key (as every caller computes them)",
